@@ -445,15 +445,18 @@ def wrPrepare (w : World) (s : Nat) : Rc × World :=
 def wrConnected (w : World) (s : Nat) : Rc × World :=
   wrPrepare (w.updLink s fun l => { l with state := .prepareWrite }) s
 
+/-- gw_proc_connect_error(r, hctx->host, hctx->proc, hctx->pid, …) -/
+def slotConnectError (w : World) (s : Nat) : World :=
+  match (w.linkOf s).host, (w.linkOf s).proc with
+  | some h, some p => connectError w h p (w.auxOf s).pid
+  | _, _ => w
+
 /-- case GW_STATE_CONNECT_DELAYED -/
 def wrDelayed (w : World) (s : Nat) : Rc × World :=
   if !(w.auxOf s).evOut then (.waitForEvent, w)
   else
     let r := popStat w
-    if r.1 = 'r' ∨ r.1 = 't' then
-      match (w.linkOf s).host, (w.linkOf s).proc with
-      | some h, some p => (.error, connectError r.2 h p (w.auxOf s).pid)
-      | _, _ => (.error, r.2)
+    if r.1 = 'r' ∨ r.1 = 't' then (.error, slotConnectError r.2 s)
     else wrConnected (r.2.updAux s fun a => { a with writeTs := r.2.now }) s
 
 /-- 0 connected, 1 in progress, 2 failed -/
@@ -462,6 +465,26 @@ def connClass (c : Char) (unix : Bool) : Nat :=
   else if c = 'r' ∨ c = 'n' then 2
   else if c = 'a' then (if unix then 1 else 2)
   else 1
+
+/-- socket() succeeded: ++cur_fds, fdevent_register, hctx->pid, write_ts, gw_host_hctx_enq -/
+def wrRegister (w : World) (s h p : Nat) : World :=
+  let w2 := openFd w s
+  let w3 := w2.updAux s fun a =>
+    { a with evIn := false, evOut := false, evRdhup := false,
+             pid := if (w2.proc h p).isLocal then (w2.proc h p).pid else a.pid,
+             writeTs := w2.now }
+  w3.updHost h fun H => { H with hctxs := s :: H.hctxs }
+
+/-- gw_establish_connection() and what GW_STATE_INIT does with its three answers -/
+def wrConnect (w : World) (s h p : Nat) : Rc × World :=
+  let c := popConn w
+  let w3 := c.2.emit (.dispatch s h p)
+  match connClass c.1 (w3.host h).unix with
+  | 0 => wrConnected (w3.updAux s fun a => { a with reconnects := 0 }) s
+  | 1 => (.waitForEvent,
+          (w3.updAux s fun a => { a with evOut := true }).updLink s
+            fun l => { l with state := .connectDelayed })
+  | _ => (.error, connectError w3 h p (w3.auxOf s).pid)
 
 /-- case GW_STATE_INIT -/
 def wrInit (w : World) (s : Nat) : Rc × World :=
@@ -475,22 +498,7 @@ def wrInit (w : World) (s : Nat) : Rc × World :=
       let w1 := procAcquire w0 s h p
       let k := popSock w1
       if k.1 = 'n' then (.error, k.2)
-      else
-        -- socket, ++cur_fds, fdevent_register, write_ts, gw_host_hctx_enq
-        let w2 := openFd k.2 s
-        let w2 := w2.updAux s fun a =>
-          { a with evIn := false, evOut := false, evRdhup := false,
-                   pid := if (w2.proc h p).isLocal then (w2.proc h p).pid else a.pid,
-                   writeTs := w2.now }
-        let w2 := w2.updHost h fun H => { H with hctxs := s :: H.hctxs }
-        let c := popConn w2
-        let w3 := c.2.emit (.dispatch s h p)
-        match connClass c.1 (w3.host h).unix with
-        | 0 => wrConnected (w3.updAux s fun a => { a with reconnects := 0 }) s
-        | 1 => (.waitForEvent,
-                (w3.updAux s fun a => { a with evOut := true }).updLink s
-                  fun l => { l with state := .connectDelayed })
-        | _ => (.error, connectError w3 h p (w3.auxOf s).pid)
+      else wrConnect (wrRegister k.2 s h p) s h p
 
 def writeRequest (w : World) (s : Nat) : Rc × World :=
   match (w.linkOf s).state with
@@ -502,23 +510,27 @@ def writeRequest (w : World) (s : Nat) : Rc × World :=
 
 /-! ### gw_write_error, gw_send_request -/
 
+/-- tail of gw_write_error(): 503 unless a status is already decided, gw_backend_error -/
+def writeErrorTail (w : World) (s : Nat) : Rc × World :=
+  let a := w.auxOf s
+  backendError (if !a.started ∧ a.status < 500 ∧ a.status ≠ 400
+                then w.updAux s fun a => { a with status := 503 } else w) s
+
+/-- "(optimization to detect backend process exit …)" block of gw_write_error() -/
+def restartIfLocal (w : World) (s : Nat) : World :=
+  match (w.linkOf s).host, (w.linkOf s).proc with
+  | some h, some p => if (w.proc h p).isLocal ∧ !w.wkr then restartDeadProcs w h false else w
+  | _, _ => w
+
 def writeError (w : World) (s : Nat) : Rc × World :=
-  let l := w.linkOf s
-  let tail (w : World) : Rc × World :=
-    let a := w.auxOf s
-    backendError (if !a.started ∧ a.status < 500 ∧ a.status ≠ 400
-                  then w.updAux s fun a => { a with status := 503 } else w) s
-  if l.state = .init ∨ l.state = .connectDelayed then
-    let w1 := match l.host, l.proc with
-      | some h, some p =>
-        if (w.proc h p).isLocal ∧ !w.wkr then restartDeadProcs w h false else w
-      | _, _ => w
+  if (w.linkOf s).state = .init ∨ (w.linkOf s).state = .connectDelayed then
+    let w1 := restartIfLocal w s
     let n := (w1.auxOf s).reconnects
     let w2 := w1.updAux s fun a => { a with reconnects := a.reconnects + 1 }
-    if n < 5 then reconnect w2 s else tail w2
+    if n < 5 then reconnect w2 s else writeErrorTail w2 s
   else
     let r := recvResponse w s
-    if r.1 ≠ .goOn then r else tail r.2
+    if r.1 ≠ .goOn then r else writeErrorTail r.2 s
 
 def sendRequest (w : World) (s : Nat) : Rc × World :=
   let r := writeRequest w s
@@ -536,30 +548,28 @@ def drain : Nat → World → Nat → Rc × World
 def processFdevent (w : World) (s : Nat) (rev : Nat) : Rc × World :=
   let r := if rev.testBit 0 then recvResponse w s else (.goOn, w)
   if r.1 ≠ .goOn then r
-  else
-    let w := r.2
-    if rev.testBit 1 then sendRequest w s
-    else if rev.testBit 2 ∨ rev.testBit 3 then
-      if (w.linkOf s).state = .connectDelayed then sendRequest w s
-      else if (w.auxOf s).started then drain (w.script.rd.length + 1) w s
-      else (.finished, connectionClose w s)
-    else if rev.testBit 4 then backendError w s
-    else (.goOn, w)
+  else if rev.testBit 1 then sendRequest r.2 s
+  else if rev.testBit 2 ∨ rev.testBit 3 then
+    if (r.2.linkOf s).state = .connectDelayed then sendRequest r.2 s
+    else if (r.2.auxOf s).started then drain (r.2.script.rd.length + 1) r.2 s
+    else (.finished, connectionClose r.2 s)
+  else if rev.testBit 4 then backendError r.2 s
+  else (.goOn, r.2)
+
+/-- the revents part of gw_handle_subrequest() -/
+def subEvents (w : World) (s : Nat) : Rc × World :=
+  let rev := (w.auxOf s).revents
+  if rev ≠ 0 then processFdevent (w.updAux s fun a => { a with revents := 0 }) s rev else (.goOn, w)
 
 def subrequest (w : World) (s : Nat) : Rc × World :=
   if !(w.linkOf s).hctx then (.goOn, w)
   else
-    let rev := (w.auxOf s).revents
-    let r := if rev ≠ 0 then processFdevent (w.updAux s fun a => { a with revents := 0 }) s rev
-             else (.goOn, w)
+    let r := subEvents w s
     if r.1 ≠ .goOn ∧ r.1 ≠ .waitForEvent then r
-    else
-      let w := r.2
-      let a := w.auxOf s
-      if (a.bytesIn = 0 ∨ a.wbLen > 0) ∧ (w.linkOf s).state ≠ .connectDelayed then
-        let r2 := sendRequest w s
-        if r2.1 ≠ .waitForEvent then r2 else (.waitForEvent, r2.2)
-      else (.waitForEvent, w)
+    else if ((r.2.auxOf s).bytesIn = 0 ∨ (r.2.auxOf s).wbLen > 0) ∧ (r.2.linkOf s).state ≠ .connectDelayed then
+      let r2 := sendRequest r.2 s
+      if r2.1 ≠ .waitForEvent then r2 else (.waitForEvent, r2.2)
+    else (.waitForEvent, r.2)
 
 /-! ### the request around the handler: http_response_handler loop, request reset -/
 
@@ -605,19 +615,17 @@ def fix504 (w : World) (s : Nat) : World :=
 
 /-- gw_handle_trigger_hctx_timeout(); kind 0 connect, 1 read, 2 write -/
 def hctxTimeout (w : World) (s : Nat) (kind : Nat) : World :=
-  let w := if w.jobs.contains s then w else { w with jobs := s :: w.jobs }
+  let w0 := if w.jobs.contains s then w else { w with jobs := s :: w.jobs }
   if kind = 0 then
-    let w1 := match (w.linkOf s).host, (w.linkOf s).proc with
-      | some h, some p => connectError w h p (w.auxOf s).pid
-      | _, _ => w
+    let w1 := slotConnectError w0 s
     let n := (w1.auxOf s).reconnects
     let w2 := w1.updAux s fun a => { a with reconnects := a.reconnects + 1 }
     if n < 1 then (reconnect w2 s).2
     else fix504 (backendError (w2.updAux s fun a => { a with status := 503 }) s).2 s
   else if kind = 2 then
-    let w1 := (writeError w s).2
+    let w1 := (writeError w0 s).2
     if (w1.auxOf s).status = 503 then w1.updAux s fun a => { a with status := 504 } else w1
-  else fix504 (backendError w s).2 s
+  else fix504 (backendError w0 s).2 s
 
 def timeoutStep (h : Nat) (w : World) (s : Nat) : World :=
   let H := w.host h
